@@ -188,11 +188,11 @@ const RULE: &str = "generated: 2-8 samples derived from common ancestors (SNPs, 
 
 fn stages(tier: Tier) -> Vec<Box<dyn Stage>> {
     vec![
-        gen_stage_show("merge", RULE, tier.pick(640, 10_000), 200, case_strategy, check, |c| {
+        gen_stage_show("merge", RULE, tier.pick(1600, 20_000), 200, case_strategy, check, |c| {
             let (_a, s) = gen::materialise_set(&c.set);
             json!({"k": c.set.k, "two_strand": c.set.rc, "files": plan(c, s.len()), "nested": c.nested, "samples": s.iter().map(|(n, r)| json!({"name": n, "records": r.iter().map(|x| lossy(x)).collect::<Vec<_>>()})).collect::<Vec<_>>()})
         }),
-        gen_stage_show("refuse", "generated: two files built with a different k (same or other integer width) or other strand mode, in either argument order; ska merge must exit non-zero and write no output. Every case non-trivial; distinct by (k, strand, k2, strand2, order).", tier.pick(160, 2000), 50, refuse_strategy, check_refuse, |c| json!({"k": c.set.k, "two_strand": c.set.rc, "kind": c.kind % 3, "bad_first": c.bad_first})),
+        gen_stage_show("refuse", "generated: two files built with a different k (same or other integer width) or other strand mode, in either argument order; ska merge must exit non-zero and write no output. Every case non-trivial; distinct by (k, strand, k2, strand2, order).", tier.pick(320, 4000), 50, refuse_strategy, check_refuse, |c| json!({"k": c.set.k, "two_strand": c.set.rc, "kind": c.kind % 3, "bad_first": c.bad_first})),
     ]
 }
 
